@@ -599,6 +599,12 @@ def check_jsonld_reader(cx: Cx, ob: Ob) -> None:
                 return lambda w: w["T"] in names
         if op(a) == "cmp" and a[1] in ("is", "==") and is_const(a[3], True) and a[2] in (GET, ITEM):
             return lambda w: w["P"]
+        if op(a) == "cmp" and a[1] in ("is", "==") and ((a[2] == v and is_const(a[3], None)) or (a[3] == v and is_const(a[2], None))):
+            return lambda w: w["T"] == "none"
+        ID = ("item", v, ("const", "@id"))
+        if op(a) == "cmp" and a[1] in ("is", "==") and ((a[2] == ID and is_const(a[3], None)) or (a[3] == ID and is_const(a[2], None))):
+            # assumption (JSON-LD 1.1, expanded term definition): the '@id' of a prefix definition is a string
+            return lambda w: False
         return None
 
     sem = {a: meaning(a) for a in atoms}
@@ -633,7 +639,7 @@ def check_jsonld_reader(cx: Cx, ob: Ob) -> None:
                     seen_dict = True
                 else:
                     report("store-value", ev.line, f"from_jsonld stores `{show(ev.b)[:40]}` for a term: neither the string value nor its '@id'")
-    for K, A, T, P in itertools.product((True, False), (True, False), ("str", "dict", "other"), (True, False)):
+    for K, A, T, P in itertools.product((True, False), (True, False), ("str", "dict", "none", "other"), (True, False)):
         if T != "dict" and P:
             continue  # '@prefix' is a property of dict values only
         w = {"K": K, "A": A, "T": T, "P": P}
